@@ -12,6 +12,7 @@ import (
 	"regexp"
 	"strings"
 	"sync"
+	"sync/atomic"
 	"time"
 
 	"github.com/krotik/ecal/interpreter"
@@ -92,9 +93,19 @@ func c13FreeChild(args []string) {
 	fmt.Sscan(os.Getenv("VERIF_C13_ROUNDS"), &rounds)
 	erp := interpreter.NewECALRuntimeProvider("c13", nil, util.NewMemoryLogger(10))
 	erp.Cron.Stop()
+	// a second provider has a debugger attached (nothing is ever suspended: no breakpoints): parsing and evaluating
+	// then also goes through the debugger's bookkeeping of sources, under source names which keep changing
+	erpDbg := interpreter.NewECALRuntimeProvider("c13d", nil, util.NewMemoryLogger(10))
+	erpDbg.Cron.Stop()
+	erpDbg.Debugger = interpreter.NewECALDebugger(scope.NewScope(scope.GlobalScope))
+	var srcCtr int64
 	evalSrc := "a := 1\nb := \"v{{a + 1}}w{{ {1:2}[1] }}\"\nif a == 1 { c := {1:b} }\nc"
 	evalOnce := func() string {
-		ast, err := parser.ParseWithRuntime("c13e", evalSrc, erp)
+		erp, name := erp, "c13e"
+		if n := atomic.AddInt64(&srcCtr, 1); n%2 == 0 {
+			erp, name = erpDbg, fmt.Sprintf("c13e-%d", n%64)
+		}
+		ast, err := parser.ParseWithRuntime(name, evalSrc, erp)
 		if err != nil {
 			return "ERR " + err.Error()
 		}
@@ -141,7 +152,11 @@ func c13FreeChild(args []string) {
 				case 0:
 					note(t, "parse", parseResult(t, nil))
 				case 1:
-					note(t, "parse+runtime", parseResult(t, erp))
+					if k%2 == 0 {
+						note(t, "parse+runtime", parseResult(t, erp))
+					} else {
+						note(t, "parse+runtime", parseResult(t, erpDbg))
+					}
 				default:
 					note(evalSrc, "eval", evalOnce())
 				}
